@@ -43,4 +43,12 @@ PROPS = {
         "level_text": "Proof by induction over all finite histories of subscribe/unsubscribe/publish/receive/resize/open/close on any number of contexts and publishers (every interleaving of the protocol's atomic steps) that Recv only returns messages matching the context's current subscriptions, that matching is exactly prefix-of-body, that contexts do not interfere, that overflow drops the oldest, and that PUB hands every message to every idle subscriber pipe with per-pipe independence; the same executable machines are compared with protocol/sub and protocol/(x)pub on random histories over adversarial topics (empty, equal, nested, non-UTF8), including slow-subscriber back-pressure and send failures.",
         "level_note": COMMON_NOTE + "Per-publisher order / at-most-once are checked by the harness oracle on sequence-numbered messages, not proved; XSUB (no filtering) is covered by C16's parse runs.",
     },
+    "C02": {
+        "obl": [],
+        "sites": ["protocol/xpair", "protocol/xpush", "protocol/xpull"],
+        "assumptions": ["atomic-step granularity (one goroutine action between two quiescent states)", "Go channel wait queues are FIFO", "goroutine scheduling fairness: an enabled step is eventually taken"],
+        "technique": "Lean 4 state machines for (X)PAIR, (X)PUSH, (X)PULL with ghost histories; sublist invariants proved by induction over all operation/fault histories; machines compared step by step with the real protocols through virtual pipes (candidate-set tracking where Go's select is non-deterministic); real-socket multiset/order runs as oracle",
+        "level_text": "Proof over all finite histories (sends, slow peers, send failures, peer drops, extra connection attempts, resizes, in any interleaving) that what a PAIR peer / each PUSH pipe is handed and what PAIR/PULL Recv returns is, in order, a subsequence of what was accepted / read — no duplication, reordering or invention under any fault sequence — that a second PAIR connection is refused leaving the state unchanged and a new one admitted after the peer has gone, and that the PUSH scheduler step is enabled whenever a message is queued and a pipe ready; for write-queue length 0 the negation of progress is proved of the model (known finding D7). The machines are run against protocol/(x)pair, (x)push, (x)pull on random histories (queue lengths 0-3 and 128), plus real sockets with concurrent senders.",
+        "level_note": COMMON_NOTE + "Completion of Send 'whenever a peer is able' is proved as enabledness of the hand-off step (scheduler fairness assumed); with several Recv calls blocked at once the wake-up order after a resize is a runtime race and is excluded from the driven histories.",
+    },
 }
